@@ -18,6 +18,7 @@ const (
 	opGASPRICE     = 0x3a
 	opEXTCODESIZE  = 0x3b
 	opEXTCODEHASH  = 0x3f
+	opTIMESTAMP    = 0x42
 	opDIFFICULTY   = 0x44
 	opPOP          = 0x50
 	opMLOAD        = 0x51
